@@ -349,7 +349,7 @@ func (matrix *DenseReal32Matrix) ConstSlice(rfrom, rto, cfrom, cto int) ConstMat
 func (matrix *DenseReal32Matrix) ConstRow(i int) ConstVector {
   // no cloning required...
   var v DenseReal32Vector
-  if matrix.transposed {
+  if matrix.transposed || matrix.cols == 0 {
     v = nilDenseReal32Vector(matrix.cols)
     for j := 0; j < matrix.cols; j++ {
       v[j] = matrix.values[matrix.index(i, j)]
@@ -363,7 +363,7 @@ func (matrix *DenseReal32Matrix) ConstRow(i int) ConstVector {
 func (matrix *DenseReal32Matrix) ConstCol(j int) ConstVector {
   // no cloning required...
   var v DenseReal32Vector
-  if matrix.transposed {
+  if matrix.transposed && matrix.rows > 0 {
     j = matrix.index(0, j)
     v = matrix.values[j:j + matrix.rows]
   } else {
